@@ -90,14 +90,17 @@ def handleEnc (id : String) (bits : Nat) (pat : Nat) (quoted : Bool) (fork std b
       ++ (if fails then "/SEARCHFAILS" else "")
       ++ " model=" ++ model ++ "|" ++ mback
 
-def handleDec (id : String) (bits : Nat) (lit : Bytes) (fork std ptr any : String) : String :=
+def handleDec (id : String) (bits : Nat) (lit : Bytes) (fork std ptr any : String) (fany : Option String := none) : String :=
   let inDomain := withinGoDigits lit
   let m := storeFloat bits lit
   let model := obsFP bits m
   let many : String := if bits = 64 then obsFP 64 (stdNumberToAny lit) else "-"
-  let corr := !inDomain || (model = fork && model = ptr && many = any)
+  -- `fany`: the FORK's Decoder without UseNumber storing the literal in an interface{} (`convertNumber`'s float path)
+  let fanyOk : Bool := match fany with | some f => bits ≠ 64 || f = many | none => true
+  let fanyStd : Bool := match fany with | some f => bits ≠ 64 || f = any | none => true
+  let corr := !inDomain || (model = fork && model = ptr && many = any && fanyOk)
   let c17 : String :=
-    if fork ≠ std || fork ≠ ptr || (bits = 64 && any ≠ std) then "viol:float-std"
+    if fork ≠ std || fork ≠ ptr || (bits = 64 && any ≠ std) || !fanyStd then "viol:float-std"
     else if !corr then "viol:float-decoder-differs"
     else "ok"
   let c04 : String := if fork = "panic" || fork = "hang" then "viol:panic-or-hang" else "ok"
@@ -123,6 +126,12 @@ def handleFloat (id : String) (args : List String) : String :=
     | some bits, some lit =>
       if bits ≠ 32 ∧ bits ≠ 64 then id ++ " corr=diff bad-request=float-bits"
       else handleDec id bits lit fork std ptr any
+    | _, _ => id ++ " corr=diff bad-request=float-fields"
+  | ["dec", bitsS, litS, "=>", fork, std, ptr, any, fany] =>
+    match bitsS.toNat?, fUnhex litS with
+    | some bits, some lit =>
+      if bits ≠ 32 ∧ bits ≠ 64 then id ++ " corr=diff bad-request=float-bits"
+      else handleDec id bits lit fork std ptr any (some fany)
     | _, _ => id ++ " corr=diff bad-request=float-fields"
   | _ => id ++ " corr=diff bad-request=float-arity"
 
